@@ -139,6 +139,24 @@ func (s *CertPool) findVerifiedParents(cert *Certificate) (parents []int, errCer
 	}
 	if len(candidates) == 0 {
 		candidates = s.byName[string(cert.RawIssuer)]
+	} else {
+		// Key identifiers are hints, not criteria: an issuer that is
+		// only found by its name is tried as well, after those whose
+		// key identifier matches.
+		both := append([]int{}, candidates...)
+		for _, n := range s.byName[string(cert.RawIssuer)] {
+			dup := false
+			for _, c := range both {
+				if c == n {
+					dup = true
+					break
+				}
+			}
+			if !dup {
+				both = append(both, n)
+			}
+		}
+		candidates = both
 	}
 
 	for _, c := range candidates {
